@@ -220,7 +220,7 @@ pub fn run(ctx: &mut Ctx) {
     let quick = ctx.quick();
     let fams = dfam::build(quick);
     let env = Env::new();
-    let sel = dfam::Sel { tiny: true, shapes: true, big: !quick, shape_cfg_stride: if quick { 5 } else { 1 } };
+    let sel = dfam::Sel { tiny: true, shapes: true, big: !quick, sweep: true, shape_cfg_stride: if quick { 7 } else { 1 } };
     dfam::for_each(ctx, &fams, sel, |ctx, it| {
         if quick && it.fam == "tiny" && (it.sched_idx + it.inp.data.len()) % 3 != 0 {
             return;
